@@ -12,6 +12,8 @@ ROOT = os.path.dirname(os.path.dirname(os.path.abspath(__file__)))
 PY = "/venv/bin/python"
 
 PENDING = {}
+# modules vetted by the lead (quiet at 5 seeds on the repaired tree, sensitivity-tested); others stay pending
+READY = {"C01", "C04"}
 
 DEFAULT_NOTE = ("Trusted base: numpy/scipy/networkx/thewalrus/Hypothesis; the harness oracle of this property "
                 "(vf/props module, with its start-up self-test); docstrings of strawberryfields.ops as the "
@@ -25,6 +27,8 @@ def main():
     for p in props:
         pid = p["id"]
         try:
+            if pid not in READY:
+                raise ModuleNotFoundError(pid)
             mod = importlib.import_module("vf.props." + pid.lower())
         except ModuleNotFoundError:
             na.append({"property_id": pid, "reason": PENDING.get(pid, "check not built yet (planned in DESIGN.md section 3); nothing is claimed for this property at this commit")})
